@@ -65,6 +65,9 @@ type pubCfg struct {
 	rules    []throttle.VerifC16Rule
 	exp      time.Duration                     // 0 = the default (30m)
 	distr    *throttle.LimitDistributionConfig // nil = none
+	noTime   bool                              // time_field "": every event is timed by the real time.Now()
+	keyField string                            // redis_backend_config.limiter_key_field (must be inert under the memory backend)
+	rawFmt   bool                              // time_field_format given as a Go layout (the text of time.RFC3339Nano) instead of an alias
 }
 
 // the same configuration steps as VerifC16NewPlugin (throttle_field "k", time_field "time", in-memory backend).
@@ -78,6 +81,7 @@ func newPub(pc pubCfg) *pubInst {
 	for _, r := range pc.rules {
 		config.Rules = append(config.Rules, throttle.RuleConfig{Limit: r.Limit, LimitKind: r.Kind, Conditions: r.Conds})
 	}
+	config.RedisBackendCfg.LimiterKeyField = cfg.FieldSelector(pc.keyField)
 	if err := cfg.SetDefaultValues(config); err != nil {
 		panic(err)
 	}
@@ -91,6 +95,13 @@ func newPub(pc pubCfg) *pubInst {
 	for i, r := range pc.rules {
 		config.Rules[i].Limit = r.Limit
 		config.Rules[i].LimitKind = r.Kind
+	}
+	if pc.rawFmt { // not an alias: Start keeps the text as the layout
+		config.TimeFieldFormat = time.RFC3339Nano
+	}
+	if pc.noTime { // SetDefaultValues turns an empty time_field into "time": cleared after it
+		config.TimeField = ""
+		config.TimeField_ = nil
 	}
 	if pc.exp > 0 {
 		config.LimiterExpiration_ = pc.exp
@@ -232,13 +243,17 @@ type shared struct {
 	pubs []*pubInst // instance i >= 1 is pubs[i-1]
 }
 
-func newShared(ninst, count int, interval int64, rs []hx.Sx) *shared {
+func newShared(ninst, count int, interval int64, rs []hx.Sx, noTime bool) *shared {
 	rules, defLimit, defKind := rulesOf(rs)
 	s := &shared{name: freshName("shared")}
 	s.own = throttle.VerifC16NewPlugin(s.name, count, time.Duration(interval), defLimit, defKind, rules)
 	for i := 1; i < ninst; i++ {
-		s.pubs = append(s.pubs, newPub(pubCfg{name: s.name, count: count, interval: time.Duration(interval),
-			defLimit: defLimit, defKind: defKind, rules: rules}))
+		pc := pubCfg{name: s.name, count: count, interval: time.Duration(interval), defLimit: defLimit, defKind: defKind, rules: rules}
+		if noTime {
+			pc.noTime, pc.keyField = true, "lk"
+		}
+		pc.rawFmt = i >= 2 // the third and fourth instance spell the time format out
+		s.pubs = append(s.pubs, newPub(pc))
 	}
 	return s
 }
@@ -252,12 +267,17 @@ func (s *shared) stop() {
 	}
 }
 
-func exec4(cs hx.Sx) hx.Sx {
+func exec4(cs hx.Sx) hx.Sx { return exec4x(cs, false) }
+
+// which=10: the instances >= 1 have no time field (and a limiter_key_field)
+func exec10(cs hx.Sx) hx.Sx { return exec4x(cs, true) }
+
+func exec4x(cs hx.Sx, noTime bool) hx.Sx {
 	it := hx.Items(cs)
 	ninst, count, interval := int(hx.Int(it[0])), int(hx.Int(it[1])), hx.Int(it[2])
 	var s *shared
 	var decisions []hx.Sx
-	msg := hx.Catch(func() { s = newShared(ninst, count, interval, hx.Items(it[3])) })
+	msg := hx.Catch(func() { s = newShared(ninst, count, interval, hx.Items(it[3]), noTime) })
 	if s != nil {
 		defer s.stop()
 	}
@@ -292,7 +312,7 @@ func exec5(cs hx.Sx) hx.Sx {
 	lists := hx.Items(it[4])
 	var s *shared
 	out := make([][]hx.Sx, len(lists))
-	msg := hx.Catch(func() { s = newShared(len(lists), count, interval, hx.Items(it[2])) })
+	msg := hx.Catch(func() { s = newShared(len(lists), count, interval, hx.Items(it[2]), false) })
 	if s != nil {
 		defer s.stop()
 	}
@@ -476,7 +496,8 @@ func shareProbe(cs hx.Sx) hx.Sx {
 	for _, n := range hx.Items(it[2]) {
 		nums = append(nums, hx.Int(n))
 	}
-	distr := &throttle.LimitDistributionConfig{Field: "d"}
+	// metric_labels: a rejected event of a distributed limiter is counted under the labels' values (one present, one absent)
+	distr := &throttle.LimitDistributionConfig{Field: "d", MetricLabels: []string{"k", "nosuch"}}
 	for i, n := range nums {
 		distr.Ratios = append(distr.Ratios, throttle.ComplexRatio{Ratio: float64(n) / float64(den), Values: []string{fmt.Sprintf("v%d", i)}})
 	}
@@ -727,6 +748,14 @@ func genSharedSeq(c *hmain.Ctx) {
 		back, err := xtime.ParseTime(format, s)
 		c.W.Oracle("xtime.ParseTime(rfc3339nano, Format(Unix(sec, nsec))) = Unix(sec, nsec) for years 1..9999",
 			err == nil && back.Unix() == x[0] && int64(back.Nanosecond()) == x[1], s)
+		// the third and fourth instance give time_field_format as the layout text instead of the alias (newShared)
+		back, err = xtime.ParseTime(time.RFC3339Nano, s)
+		c.W.Oracle("xtime.ParseTime(layout text of RFC3339Nano, s) = xtime.ParseTime(alias rfc3339nano, s)",
+			err == nil && back.Unix() == x[0] && int64(back.Nanosecond()) == x[1], s)
+	}
+	for _, s := range rawTimes {
+		_, err := xtime.ParseTime(time.RFC3339Nano, s)
+		c.W.Oracle("xtime.ParseTime(layout text of RFC3339Nano, raw) fails for the raw time fields of stream plugin-shared-seq", err != nil, s)
 	}
 	for n := 0; n < 120*c.Scale; n++ {
 		ninst := r.Range(2, 4)
@@ -796,6 +825,78 @@ func genSharedSeq(c *hmain.Ctx) {
 		if extremes > 0 {
 			c.W.Count("shared_seq_with_overflowing_zero_or_raw_time")
 		}
+	}
+}
+
+// coverage round — throttle.go, Plugin.isAllowed: time_field "" (the else branch: every event is timed by the real
+// time.Now(), whatever the event carries) and redis_backend_config.limiter_key_field under the in-memory backend
+// (the limit-key override is computed and must change nothing).  which=10 = which=4 with instances >= 1 configured that
+// way: their events carry in-window, out-of-window, overflowing and raw time fields, all of which must be ignored
+// (charged to the newest bucket), and an "lk" field.
+// Regression it exposes: a Plugin without time field that still reads the event's time, or falls back to the zero
+// time / the oldest bucket; a limiter key that depends on the limit-key override.
+func genNoTimeField(c *hmain.Ctx) {
+	r := c.R
+	vals := []string{"x", "y", ""}
+	for n := 0; n < 40*c.Scale; n++ {
+		ninst := r.Range(2, 3)
+		count := r.Range(1, 4)
+		interval := hx.Pick(r, []int64{1000, 1_000_000_000, 60_000_000_000})
+		var rules []hx.Sx
+		for i := r.Intn(3); i > 0; i-- {
+			var conds [][2]string
+			if r.Chance(3, 4) {
+				conds = append(conds, [2]string{"a", hx.Pick(r, vals)})
+			}
+			rules = append(rules, hx.L(hx.I(r.Range(-1, 3)), hx.I(r.Intn(2)), kvSx(conds)))
+		}
+		rules = append(rules, hx.L(hx.I(r.Intn(4)), hx.I(r.Intn(2)), hx.L()))
+		window := int64(count) * interval
+		now := window + int64(r.Intn(int(min64(2*interval, 1<<30))))
+		var evs []hx.Sx
+		for i, nev := 0, r.Range(8, 40); i < nev; i++ {
+			inst := r.Intn(ninst)
+			if i == 0 {
+				inst = 0
+			}
+			if inst == 0 {
+				switch r.Intn(6) {
+				case 0:
+					now += interval
+				case 1:
+					now += int64(r.Intn(int(min64(2*window, 1<<40)) + 1))
+				case 2:
+					now += int64(r.Intn(int(min64(interval, 1<<30)) + 1))
+				}
+			}
+			ts := hx.Z(now)
+			switch r.Intn(6) {
+			case 0, 1: // an older bucket of the window: the instances without time field must not use it
+				ts = hx.Z(now - int64(r.Intn(int(min64(window+interval, 1<<40))+1)))
+			case 2:
+				if inst != 0 {
+					if r.Bool() {
+						x := hx.Pick(r, extremeTimes)
+						ts = hx.L(hx.Z(x[0]), hx.Z(x[1]))
+					} else {
+						ts = hx.S(hx.Pick(r, rawTimes))
+					}
+				}
+			}
+			var f [][2]string
+			if !r.Chance(1, 5) {
+				f = append(f, [2]string{"k", hx.Pick(r, []string{"k1", "k2", "default"})})
+			}
+			if r.Chance(2, 3) {
+				f = append(f, [2]string{"a", hx.Pick(r, vals)})
+			}
+			if r.Chance(1, 2) {
+				f = append(f, [2]string{"lk", hx.Pick(r, []string{"o1", "o2", ""})})
+			}
+			evs = append(evs, hx.L(hx.I(inst), hx.Z(now), ts, hx.I(1+r.Intn(3)), kvSx(f)))
+		}
+		c.Do("plugin-no-time-field", 10, hx.L(hx.I(ninst), hx.I(count), hx.Z(interval), hx.L(rules...), hx.L(evs...)), true)
+		c.W.Count("no_time_field_cases")
 	}
 }
 
@@ -994,6 +1095,9 @@ func genSharesRatio(c *hmain.Ctx) {
 		emit(1000, 1000, []int64{num})
 	}
 	emit(1000, 1000, []int64{335})
+	for _, t := range []int64{0, 1, 1000, 1 << 40} { // a field without ratios: no distribution, the whole limit
+		emit(t, 1000, nil)
+	}
 	emit(1000, 1000, []int64{280, 320, 300, 100}) // sums to exactly 1: the float64 sum exceeds 1
 	dens := []int64{1000, 1000, 10000, 1_000_000, 3, 7, 12, 1 << 20, 100}
 	totals := []int64{0, 1, 7, 100, 999, 1000, 5000, 123457, 1 << 24, (1 << 24) + 1, 1 << 40, (1 << 53) - 1, 1 << 53, (1 << 53) + 1, (1 << 60) + 12345}
